@@ -95,3 +95,106 @@ def where(fi, ev):
 
 def describe(path, limit=6):
     return ' & '.join('%s%s' % ('' if pol else 'not ', t[:60]) for t, pol in path.facts[:limit])
+
+
+# ------------------------------------------------------------------------------------------------------------
+# finite-domain evaluation of path facts
+class _Unknown(Exception):
+    pass
+
+
+def _ev_const(e, subst):
+    t = norm(e)
+    if t in subst:
+        return subst[t]
+    if isinstance(e, ast.Constant):
+        return e.value
+    if isinstance(e, ast.UnaryOp):
+        v = _ev_const(e.operand, subst)
+        if isinstance(e.op, ast.Not):
+            return not v
+        if isinstance(e.op, ast.USub):
+            return -v
+        raise _Unknown()
+    if isinstance(e, ast.BoolOp):
+        vals = [_ev_const(v, subst) for v in e.values]
+        if isinstance(e.op, ast.And):
+            r = True
+            for v in vals:
+                r = v
+                if not v:
+                    break
+            return r
+        r = False
+        for v in vals:
+            r = v
+            if v:
+                break
+        return r
+    if isinstance(e, ast.BinOp) and isinstance(e.op, (ast.Add, ast.Sub)):
+        a, b = _ev_const(e.left, subst), _ev_const(e.right, subst)
+        if not isinstance(a, (int, float)) or not isinstance(b, (int, float)):
+            raise _Unknown()
+        return a + b if isinstance(e.op, ast.Add) else a - b
+    if isinstance(e, ast.Compare):
+        left = _ev_const(e.left, subst)
+        for op, c in zip(e.ops, e.comparators):
+            right = _ev_const(c, subst)
+            try:
+                if isinstance(op, ast.Lt): r = left < right
+                elif isinstance(op, ast.LtE): r = left <= right
+                elif isinstance(op, ast.Gt): r = left > right
+                elif isinstance(op, ast.GtE): r = left >= right
+                elif isinstance(op, ast.Eq): r = left == right
+                elif isinstance(op, ast.NotEq): r = left != right
+                elif isinstance(op, ast.Is): r = left is right
+                elif isinstance(op, ast.IsNot): r = left is not right
+                elif isinstance(op, ast.In): r = left in right
+                elif isinstance(op, ast.NotIn): r = left not in right
+                else: raise _Unknown()
+            except TypeError:
+                raise _Unknown()
+            if not r:
+                return False
+            left = right
+        return True
+    if isinstance(e, ast.Call) and isinstance(e.func, ast.Name) and not e.keywords:
+        if e.func.id == 'abs' and len(e.args) == 1:
+            v = _ev_const(e.args[0], subst)
+            if isinstance(v, (int, float)):
+                return abs(v)
+        if e.func.id == 'isinstance' and len(e.args) == 2 and isinstance(e.args[1], ast.Name) and e.args[1].id in ('int', 'str', 'bool', 'float'):
+            v = _ev_const(e.args[0], subst)
+            return isinstance(v, {'int': int, 'str': str, 'bool': bool, 'float': float}[e.args[1].id])
+        if e.func.id in ('min', 'max') and e.args:
+            vals = [_ev_const(a, subst) for a in e.args]
+            if all(isinstance(v, (int, float)) for v in vals):
+                return min(vals) if e.func.id == 'min' else max(vals)
+    raise _Unknown()
+
+
+def eval_fact(text, subst):
+    """truth value of a fact text under a valuation {expression text: python constant}, or None when the fact mentions
+    anything the valuation does not determine (own tiny evaluator: constants, comparisons, and/or/not, +/-, abs/min/max,
+    isinstance against int/str/bool/float)"""
+    try:
+        e = ast.parse(text, mode='eval').body
+    except SyntaxError:
+        return None
+    try:
+        return bool(_ev_const(e, subst))
+    except _Unknown:
+        return None
+
+
+def feasible(path, subst):
+    """False when some fact of the path is decided the other way by the valuation; also returns how many facts were decided"""
+    decided = 0
+    for t, pol in path.facts:
+        v = eval_fact(t, subst)
+        if v is None:
+            continue
+        decided += 1
+        if v != pol:
+            return False, decided
+    return True, decided
